@@ -698,7 +698,34 @@ impl Generator {
                 }
             }
         } else {
-            let targets = pick_targets(rng, info, None);
+            // tables a surgery of this run installed or rewrote draw half of the faults
+            let mut installed: Vec<&str> = Vec::new();
+            for sgy in &t.surgery {
+                installed.extend_from_slice(match sgy {
+                    Surgery::InstallBitmaps { colour: true, .. } => &["CBLC", "CBDT"],
+                    Surgery::InstallBitmaps { colour: false, .. } => &["EBLC", "EBDT"],
+                    Surgery::InstallMorx { .. } => &["morx"],
+                    Surgery::InstallKern { .. } => &["kern"],
+                    Surgery::InstallVarGpos { .. } => &["GPOS", "GDEF"],
+                    Surgery::InstallReverseChain { .. }
+                    | Surgery::InstallExpansion { .. }
+                    | Surgery::InstallContextFanout { .. } => &["GSUB"],
+                    Surgery::InstallVertical { .. } => &["vhea", "vmtx"],
+                    Surgery::CompactHmtx { .. } => &["hmtx", "hhea"],
+                    Surgery::MacRomanCmap { .. } => &["cmap"],
+                    Surgery::LongNames { .. } => &["name"],
+                    Surgery::InstallCff2Subrs { .. } => &["CFF2"],
+                    Surgery::InstallCvar { .. } => &["cvar", "cvt "],
+                    Surgery::InstallVarComposite { .. } => &["glyf", "gvar"],
+                    _ => &[],
+                });
+            }
+            installed.retain(|x| info.has(x));
+            let targets = if !installed.is_empty() && rng.pct(50) {
+                (0..1 + rng.usize_below(2)).map(|_| rng.pick(&installed).to_string()).collect()
+            } else {
+                pick_targets(rng, info, None)
+            };
             for _ in 0..nfaults {
                 if let Some(f) = gen_table_fault(rng, info, &targets) {
                     t.faults.push(f);
